@@ -650,7 +650,30 @@ def _h_doe(ctx, cfg):
             real.close()
 
 
-HARNESSES = {"callable": h_callable, "disc": _h_disc, "chain": _h_chain, "doe": _h_doe}
+def h_sequential_helper(ctx, cfg):
+    """``gemseo.utils.multiprocessing.execution.execute`` with ``n_processes=1`` (the sequential counterpart used by the multi-start and
+    mNBI algorithms): results positionally matched, each callback called exactly once per input with the matching index and output."""
+    from gemseo.utils.multiprocessing.execution import execute
+
+    n = cfg["n"]
+    xs = [ctx.real(f"x{i}") for i in range(n)]
+    F = ctx.uf("F", 1)
+    log = []
+    callbacks = [(lambda index, output, c=c: log.append((c, index, output))) for c in range(cfg["ncb"])]
+    result = execute(lambda x: F(x), callbacks, 1, xs)
+    ok = lambda b: ctx.true() if b else ctx.false()  # noqa: E731
+    ctx.check("sequential: result-is-a-list-of-n", ok(isinstance(result, list) and len(result) == n))
+    for i in range(min(n, len(result))):
+        ctx.check(f"sequential: result[{i}]==F(input[{i}])", ctx.eq(result[i], F(xs[i])))
+    for c in range(cfg["ncb"]):
+        for i in range(n):
+            calls = [o for (cc, idx, o) in log if cc == c and idx == i]
+            ctx.check(f"sequential: callback{c}-called-exactly-once-with-index[{i}]", ok(len(calls) == 1))
+            for o in calls[:1]:
+                ctx.check(f"sequential: callback{c}-output-matches-index[{i}]", ctx.eq(o, F(xs[i])))
+
+
+HARNESSES = {"sequential_helper": h_sequential_helper, "callable": h_callable, "disc": _h_disc, "chain": _h_chain, "doe": _h_doe}
 
 
 def configs(tier):
@@ -663,6 +686,7 @@ def configs(tier):
     def D(**k):
         return ("disc", dict(dict(cache="none", kind="exec"), **k))
 
+    out += [("sequential_helper", dict(n=3, ncb=2)), ("sequential_helper", dict(n=1, ncb=1))]
     # ---- callable
     out.append(C(n=0, w=1))
     out += [C(n=1, w=1), C(n=1, w=2, reraise=True, ncb=2, submitted=True)]
